@@ -427,6 +427,11 @@ func (c *wsConn) call(rid, action string, params interface{}, cb func(result jso
 	}
 
 	sub.CanCall(action, func(err error) {
+		// The connection may have been closed while waiting for the access
+		// response. Make no call request on behalf of a closed connection.
+		if c.disposing {
+			return
+		}
 		if err != nil {
 			cb(nil, "", err)
 			return
